@@ -190,11 +190,7 @@ func New(o Opts) *World {
 		reg(fmt.Sprintf("kdc.r%d.gokrb5:88", i+1), k)
 	}
 	w.Conf = ConfText(o)
-	cfg, err := config.NewFromString(w.Conf)
-	if err != nil {
-		engine.Fatal("world configuration does not load: %v\n%s", err, w.Conf)
-	}
-	w.Config = cfg
+	w.Config = ParseCached(w.Conf)
 	w.Client = w.NewClient()
 	return w
 }
@@ -242,3 +238,47 @@ func (w *World) KeyOf(name ...string) []byte {
 }
 
 var _ = rcrypto.AES256
+
+var confCache = map[string]*config.Config{}
+
+// ParseCached parses a configuration text once and hands out deep copies (parsing is slow and the checks build
+// thousands of worlds; a copy keeps runs independent even if the code under test modifies its configuration).
+func ParseCached(text string) *config.Config {
+	c, ok := confCache[text]
+	if !ok {
+		var err error
+		c, err = config.NewFromString(text)
+		if err != nil {
+			engine.Fatal("world configuration does not load: %v\n%s", err, text)
+		}
+		confCache[text] = c
+	}
+	return CloneConfig(c)
+}
+
+// CloneConfig deep-copies the parts of a Config that are slices or maps.
+func CloneConfig(c *config.Config) *config.Config {
+	n := *c
+	n.Realms = nil
+	for _, r := range c.Realms {
+		r.KDC = append([]string(nil), r.KDC...)
+		r.AdminServer = append([]string(nil), r.AdminServer...)
+		r.KPasswdServer = append([]string(nil), r.KPasswdServer...)
+		r.MasterKDC = append([]string(nil), r.MasterKDC...)
+		n.Realms = append(n.Realms, r)
+	}
+	n.DomainRealm = config.DomainRealm{}
+	for k, v := range c.DomainRealm {
+		n.DomainRealm[k] = v
+	}
+	l := &n.LibDefaults
+	l.DefaultTGSEnctypes = append([]string(nil), l.DefaultTGSEnctypes...)
+	l.DefaultTktEnctypes = append([]string(nil), l.DefaultTktEnctypes...)
+	l.PermittedEnctypes = append([]string(nil), l.PermittedEnctypes...)
+	l.DefaultTGSEnctypeIDs = append([]int32(nil), l.DefaultTGSEnctypeIDs...)
+	l.DefaultTktEnctypeIDs = append([]int32(nil), l.DefaultTktEnctypeIDs...)
+	l.PermittedEnctypeIDs = append([]int32(nil), l.PermittedEnctypeIDs...)
+	l.PreferredPreauthTypes = append([]int(nil), l.PreferredPreauthTypes...)
+	l.KDCDefaultOptions.Bytes = append([]byte(nil), l.KDCDefaultOptions.Bytes...)
+	return &n
+}
